@@ -431,6 +431,12 @@ class Gen:
             if "s" not in bind["e"]["segs"][0]:
                 bind["e"]["segs"][0] = {"s": self.name()}
         args = [{"kw": self.name(), "v": self.argp()} for _ in range(self.pick([0, 0, 1, 2]))]
+        if bind and args and self.chance(0.3):
+            # the bound variable is named like one of the tag's own keyword arguments (which scope is it read in?)
+            bind["e"] = {"k": "path", "segs": [{"s": args[0]["kw"]}]}
+        if len(args) == 2 and self.chance(0.3):
+            # a keyword argument that names its sibling
+            args[1]["v"] = {"k": "path", "segs": [{"s": args[0]["kw"]}]}
         return {"k": kind, "name": name, "?bind": bind, "args": args}
 
     def n_include(self, depth, in_loop, line_mode) -> dict:
@@ -447,7 +453,7 @@ class Gen:
         return {"k": "liquid", "lines": [self.node(min(depth, 2) - 1, in_loop, True) for _ in range(self.r.randint(1, 4))]}
 
     def n_comment(self, depth, in_loop, line_mode) -> dict:
-        return {"k": "comment", "v": self.text(["a", " ", "b", "\n"], 0, 6)}
+        return {"k": "comment", "v": self.text(["a", " ", "b", "\n"], 0, 6), "lines": ["echo 'hidden'", "assign zz = 1"][: self.pick([0, 1, 2])]}
 
     def n_inline_comment(self, depth, in_loop, line_mode) -> dict:
         return {"k": "inline_comment", "v": self.text(["a", " ", "b"], 0, 6)}
@@ -488,6 +494,7 @@ BLOCK_KINDS = {"capture", "if", "unless", "case", "for", "tablerow", "ifchanged"
 LINE_KINDS = {
     "echo", "assign", "capture", "incr", "decr", "if", "unless", "case", "for", "tablerow", "cycle",
     "ifchanged", "include", "render", "inline_comment", "call", "with",
+ "comment",
 }
 
 
@@ -768,6 +775,8 @@ def line_src(n: Any, d: Delims = DEFAULT) -> list:  # noqa: PLR0911, PLR0912
         return [f"{k} " + partial_expr_src(n)]
     if k == "inline_comment":
         return [d.lc + " " + n["v"]]
+    if k == "comment":  # a block comment inside a liquid tag: its body is lines that look like tags
+        return ["comment", *(n.get("lines") or []), "endcomment"]
     if k == "call":
         args = [expr_src(a) for a in n["args"]] + [arg_src(a) for a in n["kwargs"]]
         return [f"call {n['name']}" + (" " + ", ".join(args) if args else "")]
